@@ -40,6 +40,7 @@ var builderProps = struct {
 // builder provides building an XPath expressions.
 type builder struct {
 	parseDepth int
+	nodeCount  int // nodes processed so far, see processNode
 	firstInput query
 }
 
@@ -679,6 +680,13 @@ func (b *builder) processOperator(root *operatorNode, props *builderProp) (query
 
 func (b *builder) processNode(root node, flags flag, props *builderProp) (q query, err error) {
 	if b.parseDepth = b.parseDepth + 1; b.parseDepth > 1024 {
+		err = errors.New("the xpath expressions is too complex")
+		return
+	}
+	// A step sequence hands its input to each of its alternatives, so the
+	// tree walked here can be exponentially larger than the expression text
+	// (a/(b,c)/(b,c)/...): bound the total work, not only the depth.
+	if b.nodeCount = b.nodeCount + 1; b.nodeCount > 65536 {
 		err = errors.New("the xpath expressions is too complex")
 		return
 	}
